@@ -461,7 +461,15 @@ func classOf(us []unit, idx []int, failsAlone []bool) string {
 	}
 	set := map[string]bool{}
 	for _, i := range idx {
-		set[us[i].class] = true
+		switch us[i].class {
+		case "ascii", "latin1-graphic", "bmp-graphic", "astral-graphic":
+			// plain graphic characters are written as themselves: not part of the signature
+		default:
+			set[us[i].class] = true
+		}
+	}
+	if len(set) == 0 {
+		set["plain graphic characters"] = true
 	}
 	var l []string
 	for k := range set {
@@ -551,8 +559,7 @@ func numForm(src string) string {
 	s := src
 	f := ""
 	if strings.HasPrefix(s, "-") {
-		f = "negative "
-		s = s[1:]
+		s = s[1:] // the sign is not part of the form
 	}
 	switch {
 	case strings.Contains(s, "::"):
@@ -724,8 +731,13 @@ func runTexts(c *engine.Ctx, kind string, mk func(string) (value.Value, string))
 			for _, tp := range tps[lo:hi] {
 				s := join(us, tp)
 				v, src := mk(s)
-				items = append(items, item{kind: kind, class: classOf(us, tp, fails), orig: v, src: src, desc: fmt.Sprintf("%s with bytes %q", kind, s),
-					nt: strings.ContainsAny(src, "\\\"") || !isASCII(s)})
+				cls := classOf(us, tp, fails)
+				it := item{kind: kind, class: cls, orig: v, src: src, desc: fmt.Sprintf("%s with bytes %q", kind, s),
+					nt: strings.ContainsAny(src, "\\\"") || !isASCII(s)}
+				if kind == "Symbol" {
+					it.classFn = symbolFormClass(src, cls)
+				}
+				items = append(items, it)
 			}
 			runItems(r, items)
 			r.Sample(fmt.Sprintf("%s %q inspects as %s", kind, join(us, tps[hi-1]), items[len(items)-1].src))
@@ -771,6 +783,35 @@ func symbolNameClass(s string) string {
 	return "identifier"
 }
 
+// symbolFormClass classifies a symbol by the form inspect chose for it.
+func symbolFormClass(src, fallback string) func(how string, okv []bool) string {
+	return func(how string, okv []bool) string {
+		switch {
+		case src == ":":
+			return "empty"
+		case !strings.HasPrefix(src, `:"`):
+			return "bare (unquoted) form"
+		case how == "rejected" && hasUnescaped(src, "$#"):
+			return "quoted form with unescaped $ or #"
+		}
+		return "quoted form, " + fallback
+	}
+}
+
+// hasUnescaped reports whether src contains one of chars not preceded by an (unescaped) backslash.
+func hasUnescaped(src, chars string) bool {
+	for i := 0; i < len(src); i++ {
+		if src[i] == '\\' {
+			i++
+			continue
+		}
+		if strings.IndexByte(chars, src[i]) >= 0 {
+			return true
+		}
+	}
+	return false
+}
+
 func runSymbols(c *engine.Ctx) {
 	runTexts(c, "Symbol", mkSymbol)
 	names := []string{"foo", "Foo", "foo_bar", "_foo", "foo1", "1foo", "123", "+", "-", "*", "**", "==", "<=>", "[]", "[]=", "foo=", "foo?", "foo!", "!", "~",
@@ -779,7 +820,7 @@ func runSymbols(c *engine.Ctx) {
 		var items []item
 		for _, n := range names {
 			v, src := mkSymbol(n)
-			items = append(items, item{kind: "Symbol", class: symbolNameClass(n), orig: v, src: src, desc: fmt.Sprintf("Symbol named %q", n), nt: true})
+			items = append(items, item{kind: "Symbol", classFn: symbolFormClass(src, symbolNameClass(n)), orig: v, src: src, desc: fmt.Sprintf("Symbol named %q", n), nt: true})
 		}
 		runItems(r, items)
 	})
@@ -1042,7 +1083,7 @@ func runRanges(c *engine.Ctx) {
 				} else if strings.HasPrefix(k.name, "Endless") {
 					shape = "endless"
 				}
-				items = append(items, item{kind: "Range", class: shape + ", " + e.name + " endpoints", orig: v, src: v.Inspect(), desc: k.name + " over " + e.name, nt: true})
+				items = append(items, item{kind: "Range", class: shape + ", " + strings.Replace(strings.Replace(e.name, "negative Int", "negative number", 1), "negative Float", "negative number", 1) + " endpoints", orig: v, src: v.Inspect(), desc: k.name + " over " + e.name, nt: true})
 			}
 		}
 		runItems(r, items)
@@ -1151,7 +1192,12 @@ func poolOK(pool []atom) []bool {
 	return ok
 }
 
+// shortClass names an element for signatures: values whose hash is not computable without a VM thread
+// (value.Hash reports NotBuiltinError: ranges, tuples, records, …) form one class.
 func shortClass(v value.Value) string {
+	if _, err := value.Hash(v); err == value.Ref(value.NotBuiltinError) {
+		return "whose hash needs the VM (Range, ArrayTuple, HashRecord, …)"
+	}
 	return strings.TrimPrefix(v.Class().Name, "Std::")
 }
 
@@ -1223,7 +1269,7 @@ func collItems(r *engine.R, k coll, pool []atom, ok []bool, depth string) []item
 			return "combination " + strings.Join(cs, ", ")
 		}
 		index[key(idx)] = len(items)
-		items = append(items, item{kind: k.kind + " " + depth, orig: v, src: v.Inspect(), desc: fmt.Sprintf("%s (%s)", k.kind, strings.Join(names, ", ")), nt: true,
+		items = append(items, item{kind: k.kind, orig: v, src: v.Inspect(), desc: fmt.Sprintf("%s (%s)", k.kind, strings.Join(names, ", ")), nt: true,
 			skipIf: func() bool { return bad }, classFn: classFn})
 	}
 	n := len(pool)
@@ -1389,7 +1435,7 @@ func runLiterals(c *engine.Ctx) {
 					if neg {
 						src = "-" + text
 					}
-					add(src, toElkInt(z), "Int literal", fmt.Sprintf("base %d, %s", b.base, sp.name), false)
+					add(src, toElkInt(z), "Int literal", fmt.Sprintf("base %d", b.base), false)
 					for _, t := range fixedTypes() {
 						if b.base >= 12 && (t.suffix[0] == 'b') {
 							continue
@@ -1410,7 +1456,7 @@ func runLiterals(c *engine.Ctx) {
 						} else {
 							want = value.Nil // any accepted value is wrong
 						}
-						it := item{kind: "fixed-width literal", class: fmt.Sprintf("base %d, %s, in range", b.base, sp.name), orig: want, src: text + t.suffix, desc: abs.String() + t.suffix, literal: true, nt: true}
+						it := item{kind: "fixed-width literal", class: fmt.Sprintf("base %d, in range", b.base), orig: want, src: text + t.suffix, desc: abs.String() + t.suffix, literal: true, nt: true}
 						if !in {
 							it.class = fmt.Sprintf("out of range accepted, base %d", b.base)
 							it.mayReject = true
@@ -1496,6 +1542,16 @@ def ti0(s: ::Std::String): ::Std::String
   end
 end
 `
+
+func toIntGroup(class string) string {
+	switch {
+	case strings.Contains(class, "prefix") || strings.HasPrefix(class, "decimal"):
+		return "base inferred from the prefix (base 0 or no argument)"
+	case class == "malformed input" || class == "unsupported base":
+		return class
+	}
+	return "explicit base"
+}
 
 type toIntCase struct {
 	s     string
@@ -1605,36 +1661,35 @@ func runToInt(c *engine.Ctx) {
 		}
 		return "FormatError or " + tc.alt
 	}
+	goAPI := func(tc toIntCase) (got string) {
+		base := tc.base
+		if base < 0 {
+			base = 0
+		}
+		defer func() {
+			if p := recover(); p != nil {
+				got = fmt.Sprintf("go-panic: %v", p)
+			}
+		}()
+		v, err := value.String(tc.s).ToInt(base)
+		switch {
+		case !err.IsUndefined() && err.Class() == value.FormatErrorClass:
+			return "FormatError"
+		case !err.IsUndefined():
+			return "other error " + safeInspect(err)
+		}
+		return v.Inspect()
+	}
 	c.Case("to_int/go-api", func(r *engine.R) {
 		for _, tc := range cs {
-			base := tc.base
-			if base < 0 {
-				base = 0
-			}
-			var got string
-			func() {
-				defer func() {
-					if p := recover(); p != nil {
-						got = fmt.Sprintf("go-panic: %v", p)
-					}
-				}()
-				v, err := value.String(tc.s).ToInt(base)
-				switch {
-				case !err.IsUndefined() && err.Class() == value.FormatErrorClass:
-					got = "FormatError"
-				case !err.IsUndefined():
-					got = "other error " + safeInspect(err)
-				default:
-					got = v.Inspect()
-				}
-			}()
+			got := goAPI(tc)
 			r.Eval(1)
 			r.NT(1)
 			if verdict(tc, got) {
 				r.Outcome("to_int go-api " + map[bool]string{true: "FormatError", false: "value"}[got == "FormatError"])
 				continue
 			}
-			r.Violation(fmt.Sprintf("String#to_int go-api wrong [%s]", tc.class), fmt.Sprintf("value.String(%q).ToInt(%d): expected %s, got %s", tc.s, base, expect(tc), got), nil)
+			r.Violation(fmt.Sprintf("String#to_int wrong [%s]", toIntGroup(tc.class)), fmt.Sprintf("Go API (%s): value.String(%q).ToInt(%d): expected %s, got %s", tc.class, tc.s, tc.base, expect(tc), got), nil)
 		}
 	})
 	chunk(len(cs), 250, func(lo, hi int) {
@@ -1665,7 +1720,11 @@ func runToInt(c *engine.Ctx) {
 					r.Outcome("to_int vm " + map[bool]string{true: "FormatError", false: "value"}[got == "FormatError"])
 					continue
 				}
-				r.Violation(fmt.Sprintf("String#to_int vm wrong [%s]", tc.class), fmt.Sprintf("%s\nexpected %s, got %s", items[i].Code, expect(tc), got), toIntPrelude+items[i].Code)
+				sig := fmt.Sprintf("String#to_int wrong [%s]", toIntGroup(tc.class))
+				if verdict(tc, goAPI(tc)) {
+					sig = fmt.Sprintf("String#to_int wrong only through the VM [%s]", toIntGroup(tc.class))
+				}
+				r.Violation(sig, fmt.Sprintf("VM (%s): %s\nexpected %s, got %s", tc.class, items[i].Code, expect(tc), got), toIntPrelude+items[i].Code)
 			}
 			r.Sample(items[len(items)-1].Code)
 		})
